@@ -519,10 +519,10 @@ def _worker(task):
 
 def analyse_parser(repo: str, max_tokens: int, use_cache: bool = True) -> List[dict]:
     import json
-    from .report import VERIF
+    from .report import CACHE, VERIF
     prog, S = _setup(repo)
     digest = source_digest(prog, extra=f"parse{max_tokens}" + _self_digest())
-    cache = VERIF / ".cache" / f"parsecases-{digest}.json"
+    cache = CACHE / f"parsecases-{digest}.json"
     if use_cache and cache.exists():
         try:
             return json.loads(cache.read_text())
@@ -860,10 +860,10 @@ def _valid_worker(task):
 def analyse_valid(repo: str, n: int) -> Tuple[int, List[dict]]:
     """Interpret the parser on every grammar-derivable sequence of exactly n tokens; returns (#agreeing, disagreements)."""
     import json
-    from .report import VERIF
+    from .report import CACHE, VERIF
     prog, S = _setup(repo)
     digest = source_digest(prog, extra=f"valid{n}" + _self_digest())
-    cache = VERIF / ".cache" / f"validcases{n}-{digest}.json"
+    cache = CACHE / f"validcases{n}-{digest}.json"
     if cache.exists():
         try:
             d = json.loads(cache.read_text())
@@ -945,10 +945,10 @@ def _nearmiss_worker(task):
 
 def analyse_near_misses(repo: str, n: int) -> Tuple[int, List[dict]]:
     import json
-    from .report import VERIF
+    from .report import CACHE, VERIF
     prog, S = _setup(repo)
     digest = source_digest(prog, extra=f"nearmiss{n}" + _self_digest())
-    cache = VERIF / ".cache" / f"nearmiss{n}-{digest}.json"
+    cache = CACHE / f"nearmiss{n}-{digest}.json"
     if cache.exists():
         try:
             d = json.loads(cache.read_text())
